@@ -371,6 +371,9 @@ func checkC18(c *Check) {
 						retOK = true
 						return
 					}
+					if t.fn == "strconv.ParseBool" && vConstBool(false)(rv) {
+						return // ParseBool's value is false with every error it reports
+					}
 					if x, _ := (Query{Fn: fn, Cut: notRange}).After(call, isInstr(r)); x != nil {
 						swallowed = p.Pos(r.Pos())
 					}
